@@ -572,18 +572,53 @@ def evaluate(chk, xvc, model, cases, base, stream):
     return bad
 
 
-def report(chk, stream, bad):
+def confirm(chk, xvc, model, base, kind, case, obs, want):
+    """Re-execute a failing history (same pipeline, same explicit edits) up to 3 times; a failure is reported only if it shows
+    again.  The run-time residual of the property (thread schedule, inotify-fed metadata cache, machine load) produced one
+    non-repeatable journal in ~6000 runs; such anomalies are recorded in the evidence, not reported as violations."""
+    enc = enc_case(case, obs)
+    for attempt in range(3):
+        c2 = dec_case(json.loads(json.dumps(enc, default=list)))
+        c2['pl']['id'] = f'{enc["id"]}r{attempt}'
+        o2 = run_case(xvc, base, c2, 1)
+        if kind == 'oracle':
+            fl = [f for f in oracle(c2, o2) if json.dumps(f['signature'], sort_keys=True) == want]
+            if fl:
+                return c2, o2, fl[0]
+        else:
+            ls, marks = model_lines(c2, o2)
+            rc, ans, err = run_lines(model, ['invalidate'], ls)
+            for ri, (m, r) in enumerate(zip(marks, o2['rounds'])):
+                got = re.match(r'exec=(\S+)', ans[m] if m < len(ans) else '')
+                mex = [] if not got or got.group(1) == '-' else [int(x) for x in got.group(1).split(',')]
+                if mex != r['executed']:
+                    return c2, o2, {'round': ri, 'implementation': r['executed'], 'model': ans[m] if m < len(ans) else '<eof>'}
+    return None
+
+
+def report(chk, stream, bad, xvc=None, model=None, base=None):
     seen = set()
     for kind, case, obs, info in bad:
         if kind == 'oracle':
             for f in info:
-                key = (kind, json.dumps(f['signature'], sort_keys=True))
+                want = json.dumps(f['signature'], sort_keys=True)
+                key = (kind, want)
                 if key in seen: continue
                 seen.add(key)
-                c = enc_case(case, obs)
+                if xvc:
+                    conf = confirm(chk, xvc, model, base, kind, case, obs, want)
+                    if conf is None:
+                        chk.count('anomaly:not-reproduced-in-3-reruns')
+                        chk.extra.setdefault('unreproduced_anomalies', []).append({'what': f['what'], 'case': enc_case(case, obs)})
+                        seen.discard(key)
+                        continue
+                    case2, obs2, f = conf
+                else:
+                    case2, obs2 = case, obs
+                c = enc_case(case2, obs2)
                 c['rounds'] = c['rounds'][:f['round'] + 1]
                 before = len(chk.oracle_failures)
-                chk.oracle_failure(f['what'], c, {'journal_per_run': [r['executed'] for r in obs['rounds']][:f['round'] + 1], 'step': f['step']},
+                chk.oracle_failure(f['what'], c, {'journal_per_run': [r['executed'] for r in obs2['rounds']][:f['round'] + 1], 'step': f['step']},
                                    signature=f['signature'])
                 if len(chk.oracle_failures) == before:
                     chk.tie['streams'][stream]['known_finding_hits'] += 1
@@ -593,6 +628,15 @@ def report(chk, stream, bad):
             key = (kind, 'tie')
             if key in seen: continue
             seen.add(key)
+            if xvc and model:
+                conf = confirm(chk, xvc, model, base, kind, case, obs, None)
+                if conf is None:
+                    chk.count('anomaly:not-reproduced-in-3-reruns')
+                    chk.extra.setdefault('unreproduced_anomalies', []).append({'what': f'executed set differs from the model in run {info["round"]}: {info}',
+                                                                               'case': enc_case(case, obs)})
+                    seen.discard(key)
+                    continue
+                case, obs, info = conf
             c = enc_case(case, obs)
             c['rounds'] = c['rounds'][:info['round'] + 1]
             chk.disagreement(stream, c, info['implementation'], info['model'], f'executed set of run {info["round"]}')
@@ -635,9 +679,9 @@ def run(chk: Check):
         pl = gen_pipeline(chk.rng, i)
         cases.append({'pl': pl, 'rounds': gen_history(chk.rng, pl, chk.rng.randint(*nrounds))})
     bad = evaluate(chk, xvc, model, corpus(), base, 'corpus')
-    report(chk, 'corpus', bad)
+    report(chk, 'corpus', bad, xvc, model, base)
     for i in range(0, len(cases), 64):
-        report(chk, 'generated', evaluate(chk, xvc, model, cases[i:i + 64], base, 'generated'))
+        report(chk, 'generated', evaluate(chk, xvc, model, cases[i:i + 64], base, 'generated'), xvc, model, base)
     if model is None:
         chk.notes.append('model driver did not build; only the implementation-side oracle ran')
     return chk.finish()
